@@ -107,8 +107,8 @@ Theorem C14_entropy_single_kind : forall c, (0 < c)%Z -> entropy_of [c] = 0%R.
 Proof. exact entropy_single. Qed.
 Print Assumptions C14_entropy_single_kind.
 
-(* Entropy values are certified per case against entropy_of by the interval tactic (Corr/C14Cert.v); PSSM is
-   not modelled in this revision (see DESIGN.md); the remaining statistics are
+(* Entropy values and sampled PSSM entries are certified per case against entropy_of / Model/Pssm.v by the
+   interval tactic (Corr/C14Cert.v); the remaining statistics are
    tied to the code by the correspondence and judged against their naive definitions by Corr/C14.v
    spec_check. *)
 
